@@ -118,14 +118,14 @@ func c17DMAOff(l *explore.Local, c c17Case) *explore.Fail {
 						op[1], op[2] = uint8(ptr), uint8(ptr>>8)
 					}
 					code := append([]uint8{0x3e, 0xc2, 0xe0, 0x46}, op...)
-					for i := 0; i < 260; i++ {
+					for i := 0; i < 420; i++ {
 						b := uint8(0)
 						if i < len(code) {
 							b = code[i]
 						}
-						m.Map.Write(0xc000+uint16(i), b)
+						m.Map.Write(0xd000+uint16(i), b)
 					}
-					regs := cpu.VRegs{A: 0x5a, B: uint8(ptr >> 8), C: uint8(ptr), D: uint8(ptr >> 8), E: uint8(ptr), H: uint8(ptr >> 8), L: uint8(ptr), SP: ptr, PC: 0xc000}
+					regs := cpu.VRegs{A: 0x5a, B: uint8(ptr >> 8), C: uint8(ptr), D: uint8(ptr >> 8), E: uint8(ptr), H: uint8(ptr >> 8), L: uint8(ptr), SP: ptr, PC: 0xd000}
 					m.CPU.VSet(regs)
 					m.I.Disable()
 					// LD A,C2 (2 cycles), LDH (46),A (3), the pointer instruction
@@ -138,22 +138,42 @@ func c17DMAOff(l *explore.Local, c c17Case) *explore.Fail {
 							break
 						}
 					}
-					m.Map.Write(0xff40, m.Map.Read(0xff40)&0x7f)
-					for k := 0; k < 200; k++ {
-						m.Cycle()
-					}
-					l.Trans(1)
-					// stores through the pointer land in OAM only while it is writable; the transfer overwrites them
-					for i := 0; i < 160; i++ {
-						want := uint8(i*11 + i/8*0x35 + 0x07)
-						if got := m.Map.Read(0xfe00 + uint16(i)); got != want {
-							f := explore.Failf("OAM altered without a CPU write or DMA: LCD off (after a DMA that was started with the LCD on)",
-								"line %d tick %d, pointer %04x, program % x, LCD switched off after it: OAM[%d]=%02x after the transfer, DMA source byte %02x", c.Line, tick, ptr, code, i, got, want)
-							f.Case = c17Case{Mode: "dmaoff", Line: c.Line, From: c.From, To: c.To, Tick: tick, Prog: []int{oi}, Ptr: ptr}
-							return f
+					// the LCD stays on for a further 0, 60 or 120 cycles (so that a line, and its mode 2, may begin while the
+					// transfer runs), is then switched off, and the transfer ends with the LCD off
+					s3p, s3o, s3i, s3t, s3c, s3m, s3a := *m.P, *m.OAM, *m.I, *m.T, *m.CPU, *m.Map, *m.A
+					for _, stay := range []int{0, 60, 120} {
+						*m.P, *m.OAM, *m.I, *m.T, *m.CPU, *m.Map, *m.A = s3p, s3o, s3i, s3t, s3c, s3m, s3a
+						for k := 0; k < stay; k++ {
+							m.Cycle()
 						}
+						m.Map.Write(0xff40, m.Map.Read(0xff40)&0x7f)
+						for k := 0; k < 200; k++ {
+							m.Cycle()
+						}
+						// LCD off, no transfer running: pointer reads and increments in FE00-FEFF must leave OAM alone
+						for j, b := range []uint8{0x2a, 0x23, 0x0a, 0xe1, 0x00, 0x00} {
+							m.Map.Write(0xc100+uint16(j), b)
+						}
+						regs2 := regs
+						regs2.PC = 0xc100
+						m.CPU.VSet(regs2)
+						for k := 0; k < 12; k++ {
+							m.Cycle()
+						}
+						l.Trans(1)
+						// stores through the pointer land in OAM only while it is writable; the transfer overwrites them
+						for i := 0; i < 160; i++ {
+							want := uint8(i*11 + i/8*0x35 + 0x07)
+							if got := m.Map.Read(0xfe00 + uint16(i)); got != want {
+								f := explore.Failf("OAM altered without a CPU write or DMA: LCD off (after a DMA that was started with the LCD on)",
+									"line %d tick %d, pointer %04x, program % x, LCD switched off after it: OAM[%d]=%02x after the transfer, DMA source byte %02x", c.Line, tick, ptr, code, i, got, want)
+								f.Case = c17Case{Mode: "dmaoff", Line: c.Line, From: c.From, To: c.To, Tick: tick, Prog: []int{oi}, Ptr: ptr}
+								f.Msg += fmt.Sprintf(" [LCD kept on for %d further cycles; after the transfer LD A,(HL+); INC HL; LD A,(BC); POP HL ran with the pointers at %04x]", stay, ptr)
+								return f
+							}
+						}
+						l.Eval(1)
 					}
-					l.Eval(1)
 				}
 			}
 			*m.P, *m.OAM, *m.I, *m.T, *m.CPU, *m.Map, *m.A = sp, so, si, st, sc, sm, sa
